@@ -14,7 +14,7 @@ pub fn run(tier: Tier) -> i32 {
     let lens: &[usize] = tier.pick(&[2, 3, 4, 5, 10, 25], &[2, 3, 4, 5, 6, 7, 8, 10, 15, 20, 25, 30, 35, 40]);
     let betas = [0.0, 0.1, 0.3, 0.5];
     let alphas = [0.0, 0.3, 0.6];
-    rep.set_rule("SCOPE: cepstrum lattice of C06 (scaled so (1+beta) x shape <= 2 Np) x beta {0,.1,.3,.5} x alpha {0,.3,.6} x vector lengths, plus very quiet and very loud frames (c0 -20, -30, 8); plus tilt-dominated spectra (|c1| in {1.2,1.5,1.8}, |c2| in {.2,.4}, all sign pairs) for which the emphasis can lower the energy; second pulse of a stationary 2-frame run through the real Vocoder; oracle: log|H_beta|-log|H_0|-beta*sum_{m>=2} c_m cos(m w~) constant over frequency within 0.01 Np, impulse-response energy within 1%, beta=0 and length 2 bit-identical to no postfilter; plus unvoiced frames: the noise-excited output equals the noise convolved with the pulse response measured on voiced frames; plus histories: the last frame after a linear glide between two cepstra over 8, 300 or 2500 (thorough: 12000) frames obeys the same two laws; distinct = (length, alpha, beta, cepstrum); non-trivial = beta>0 and length>2");
+    rep.set_rule("SCOPE: cepstrum lattice of C06 (scaled so (1+beta) x shape <= 2 Np) x beta {0,.1,.3,.5} x alpha {0,.3,.6} x vector lengths, plus very quiet and very loud frames (c0 -20, -30, 8); plus tilt-dominated spectra (|c1| in {1.2,1.5,1.8}, |c2| in {.2,.4}, all sign pairs) for which the emphasis can lower the energy; second pulse of a stationary 2-frame run through the real Vocoder; oracle: log|H_beta|-log|H_0|-beta*sum_{m>=2} c_m cos(m w~) constant over frequency within 0.01 Np, impulse-response energy within 1%, beta=0 and length 2 bit-identical to no postfilter; plus unvoiced frames: the noise-excited output equals the noise convolved with the pulse response measured on voiced frames; plus histories: the last frame after a linear glide between two cepstra over 8, 300 or 2500 (thorough: 12000) frames obeys the same two laws, and so do stationary frames after a first frame that differs from them only in the sign of one coefficient and one low mantissa bit (0..12) of a neighbour one or two places on; distinct = (length, alpha, beta, cepstrum); non-trivial = beta>0 and length>2");
     rep.assume("lattice cepstra only; energy measured on the truncated pulse response (tail < 1e-7 of peak)");
     let mut cases: Vec<(usize, f64, f64, Vec<f64>)> = Vec::new();
     for &len in lens {
@@ -232,6 +232,82 @@ pub fn run(tier: Tier) -> i32 {
             rep.violation("energy-after-glide", format!("after a glide of {} frames the impulse-response energy differs by {:.2}% between beta {} and beta 0 (len {}, alpha {})", n, erel * 100.0, beta, len, alpha), rp);
         }
     });
+    // near-twin frames: a first frame that differs from the following (stationary) frames only at the level of bits - the sign
+    // of one coefficient and one low mantissa bit of a neighbour (the pairs of changes that cancel in xor/rotate-style
+    // fingerprints) - must not be taken for the same frame: the stationary frames obey the energy law as if they came first
+    {
+        let mut twins: Vec<(usize, f64, usize, usize, u32)> = Vec::new();
+        for &len in &[3usize, 6, 25] {
+            for (ai, &alpha) in [0.0, 0.42].iter().enumerate() {
+                for i in 0..len - 1 {
+                    for dist in 1..=2usize {
+                        if i + dist >= len {
+                            continue;
+                        }
+                        for bit in 0..=12u32 {
+                            // a stride keeps the quick tier small: every (position, bit) pair occurs for one of the two alphas
+                            if tier == Tier::Quick && (i + bit as usize + dist) % 2 != ai {
+                                continue;
+                            }
+                            twins.push((len, alpha, i, i + dist, bit));
+                        }
+                    }
+                }
+            }
+        }
+        let twin_worst = Mutex::new(0.0f64);
+        rep.par_for(twins.len(), 8, "C14 near-twin frames", |ti| {
+            let (len, alpha, i, j, bit) = twins[ti];
+            let beta = 0.3;
+            // every coefficient of B is sizeable (a decaying alternating series scaled to 1.2 Np), so that negating any one of
+            // them changes the energy correction noticeably
+            let mut b: Vec<f64> = (0..len).map(|m| if m == 0 { 0.0 } else { 0.85f64.powi(m as i32) * if (m + i) % 3 == 0 { -1.0 } else { 1.0 } }).collect();
+            let mx = shape_max(&b, alpha);
+            for m in 1..len {
+                b[m] *= 1.2 / mx;
+            }
+            b[0] = 0.25;
+            let mut a = b.clone();
+            a[i] = -a[i];
+            a[j] = f64::from_bits(a[j].to_bits() ^ (1u64 << bit));
+            let rate = 16000usize;
+            let t0 = rate / 20;
+            let run = |bt: f64, first: &Vec<f64>| -> Result<Vec<f64>, String> {
+                let (a, b) = (first.clone(), b.clone());
+                catch(move || {
+                    let mut v = jbonsai::vocoder::Vocoder::new(len, 0, 0, false, rate, alpha, bt, 1.0, t0);
+                    let mut buf = vec![0.0; t0];
+                    v.synthesize(20f64.ln(), &a, &[], &mut buf);
+                    for _ in 0..3 {
+                        v.synthesize(20f64.ln(), &b, &[], &mut buf);
+                    }
+                    let s = (t0 as f64).sqrt();
+                    buf[..t0 - 2].iter().map(|x| x / s).collect::<Vec<f64>>()
+                })
+            };
+            rep.eval(1);
+            rep.cmp(1);
+            let rp = json!({"vector_length": len, "alpha": alpha, "beta": beta, "frames": "A, B, B, B", "B": b, "A": format!("B with coefficient {} negated and mantissa bit {} of coefficient {} flipped", i, bit, j), "measure": "last frame"});
+            let (h0, hb) = match (run(0.0, &a), run(beta, &a)) {
+                (Ok(x), Ok(y)) => (x, y),
+                (Err(p), _) | (_, Err(p)) => {
+                    rep.violation(format!("panic@{}", site_of(&p)), p, rp);
+                    return;
+                }
+            };
+            let e0: f64 = h0.iter().map(|x| x * x).sum();
+            let eb: f64 = hb.iter().map(|x| x * x).sum();
+            let erel = (eb / e0 - 1.0).abs();
+            {
+                let mut w = twin_worst.lock().unwrap();
+                *w = w.max(erel);
+            }
+            if !(erel <= 0.01) {
+                rep.violation("energy-after-near-twin", format!("after a first frame that differs from the stationary one only in a sign and one low bit, the impulse-response energy differs by {:.2}% between beta {} and beta 0 (len {}, alpha {})", erel * 100.0, beta, len, alpha), rp);
+            }
+        });
+        rep.note("near_twin_frames", json!({"cases": twins.len(), "worst_energy_rel": *twin_worst.lock().unwrap()}));
+    }
     // the postfilter acts on the spectrum, whatever excites the filter: on unvoiced (noise-excited) frames the output must
     // be the noise convolved with the very pulse response measured on voiced frames with the same beta
     let mut noise_cases = 0u64;
